@@ -43,16 +43,17 @@ Definition as_index (s : string) : option Z :=
   | _ => if all_digits s then Some (digits_val s 0) else None
   end.
 
-(* parts for which Python's int() and the model's as_index may disagree *)
+(* parts for which Python's int() and the model's as_index may disagree: not plain digits,
+   yet made only of characters int() tolerates (digits, sign, underscore, blanks) *)
+Definition int_tolerated (c : ascii) : bool :=
+  is_digit c || Ascii.eqb c "-"%char || Ascii.eqb c "+"%char || Ascii.eqb c " "%char
+  || Ascii.eqb c "_"%char || Nat.leb (nat_of_ascii c) 13.
+Fixpoint all_tolerated (s : string) : bool :=
+  match s with EmptyString => true | String c s' => int_tolerated c && all_tolerated s' end.
 Definition part_modelled (s : string) : bool :=
   match s with
   | EmptyString => true
-  | String c _ =>
-      if all_digits s then true
-      else
-        (* a non-digit part must not look like something int() would still accept *)
-        negb (is_digit c || Ascii.eqb c "-"%char || Ascii.eqb c "+"%char
-              || Ascii.eqb c " "%char || Ascii.eqb c "_"%char)
+  | _ => all_digits s || negb (all_tolerated s)
   end.
 Definition path_modelled (parts : list string) : bool := forallb part_modelled parts.
 
